@@ -270,7 +270,7 @@ pub fn run(ctx: &Ctx) -> i32 {
     // (1) deviation-bounded schedules
     let bound = if thorough { 3 } else { 2 };
     for (ti, t) in targets.iter().enumerate() {
-        let b = if ti < 3 { bound } else if t.name == "big" { 1 } else { bound - 1 };
+        let b = if t.name == "big" { 1 } else if ti < 3 || !thorough { bound } else { bound - 1 };
         let fam = format!("schedules-{}-d{}", t.name, b);
         if !ctx.wants_family(&fam) {
             continue;
